@@ -13,6 +13,26 @@ HEADER = ("From Coq Require Import ZArith List PrimFloat.\n"
           "From Hy Require Import Base.Num Model.Grid Model.Catchment Model.Accumulate.")
 
 
+# Stored representations of the two input grids (the property speaks of cell values, whatever
+# the array type that holds them): integer types of the flow-direction grid with the no-data
+# values they can hold (0 = the Grid default, the others are usual raster conventions; none is
+# one of the eight direction codes), and types of the accumulated field with their no-data values.
+FD_STORAGE = [
+    (np.int64, [0, -1, -9999, 255, 3]),
+    (np.int32, [0, -1, -9999, 255, -2147483648]),
+    (np.int16, [0, -1, -9999, 255, -32768]),
+    (np.uint8, [0, 255, 3]),
+    (np.uint16, [0, 255, 65535]),
+    (np.uint32, [0, 255, 4294967295]),
+]
+FIELD_STORAGE = [
+    (np.float64, [float("nan"), -9999.0, 0.0, -1.0]),
+    (np.float32, [float("nan"), -9999.0, 0.0, -1.0]),
+    (np.int32, [-9999, 0, -1]),
+    (np.int64, [-9999, 0, -1]),
+]
+
+
 class quiet_stdout:
     """c_accumulate prints its progress with fprintf(stdout): silence file descriptor 1."""
 
@@ -50,10 +70,17 @@ def run(ctx):
     ctx.rule = ("exhaustive: every grid with <= 3 cells over 10 cell values (8 codes, sink, invalid) x 3 fields; "
                 "random acyclic forests and arbitrary (cyclic) grids up to 10x10 (thorough 24x24); fields uniform / "
                 "positive dyadic / zeros and negatives / random doubles; default and reduced max_accumulated_cells; "
-                "non-trivial = distinct (shape class, field kind, acyclic, cap class, max upstream count class)")
+                "stored representations: directions held as int64/int32/int16/uint8/uint16/uint32 with zero and "
+                "non-zero no-data values and cells holding that value (exhaustive on <= 3 cells with the invalid value "
+                "= the no-data value, random beyond), field = default / float64 / float32 / int32 / int64 grids with "
+                "NaN and numeric no-data values, the same grid objects taken through one or two successive calls "
+                "(each call checked; cell values of both inputs compared with the generated values after every call); "
+                "non-trivial = distinct (shape class, field kind, acyclic, cap class, max upstream count class, "
+                "direction storage, zero/non-zero no-data, no-data cells 0/1/2+, field storage, call number)")
     ctx.trusted = cm.STD_TRUST
     ctx.tested_not_proved = ["binary64 sums equal the real-number sums to 1e-9 relative (tested with exact rationals)",
-                             "input grids' cell values unchanged (tested before/after; dtype conversion is Python glue)"]
+                             "input grids' cell values unchanged (tested after every call against the generated values, for every "
+                             "storage type / no-data value of the two grids; dtype conversion is Python glue)"]
     proved = cm.prove_with_kernels(ctx, ["c_accumulate", "c_downstream", "c_neighbours"])
     cm.use_impl()
     from hydrodiy.gis import grid as hygrid
@@ -76,27 +103,29 @@ def run(ctx):
             return [rng.choice([0.0, 0.0, -1.5, 2.0, -0.25, 3.0, 1e3]) for _ in range(n)]
         return [rng.uniform(0.0, 10.0) ** 3 for _ in range(n)]
 
-    def do(nrows, ncols, fd, kind, field, maxcells=-1, nodata=float("nan")):
+    def do(nrows, ncols, fd, kind, field, maxcells=-1, nodata=float("nan"), fd_dtype=np.int64, fd_nodata=0,
+           field_dtype=np.float64, default_field=None, calls=1):
+        """One pair of grid objects (flow directions stored as fd_dtype with no-data value fd_nodata; field stored
+        as field_dtype with no-data value nodata, or the default unit field) taken through `calls` successive
+        calls of accumulate; every call is a case of its own (model correspondence + oracle)."""
         n = nrows * ncols
-        g = hygrid.Grid("fd", ncols, nrows, dtype=np.int64)
-        g.data = np.array(fd, dtype=np.int64).reshape(nrows, ncols)
-        if kind == "unit" and nodata == 0.0:
-            ta = None
+        fd = [int(v) for v in fd]
+        g = hygrid.Grid("fd", ncols, nrows, dtype=fd_dtype, nodata=fd_nodata)
+        g.data = np.array(fd, dtype=fd_dtype).reshape(nrows, ncols)
+        assert [int(x) for x in g.data.ravel()] == fd, "generator: direction values do not fit the storage type"
+        if default_field is None:
+            default_field = kind == "unit" and nodata == float(fd_nodata)
+        if default_field:
+            # accumulate(flowdir): unit field, no-data value of the flow-direction grid
+            ta, stored, nd = None, [1.0] * n, float(g.nodata)
         else:
-            ta = hygrid.Grid("ta", ncols, nrows, dtype=np.float64, nodata=nodata)
+            ta = hygrid.Grid("ta", ncols, nrows, dtype=field_dtype, nodata=nodata)
             ta.data = np.array(field, dtype=np.float64).reshape(nrows, ncols)
-        fd_before = g.data.copy()
-        ta_before = ta.data.copy() if ta is not None else None
-        replay = {"nrows": nrows, "ncols": ncols, "flowdir": list(fd), "field": list(field),
-                  "max_accumulated_cells": maxcells, "nodata": repr(nodata)}
-        cm.mark(replay)
-        try:
-            with quiet_stdout():
-                acc = hygrid.accumulate(g, ta, nprint=10 ** 9, max_accumulated_cells=maxcells)
-            res = [float(x) for x in acc.data.ravel()]
-        except ValueError:
-            res = None
-        replay["impl"] = res
+            # the accumulated field is what the grid holds (float32 / integer storage rounds what it is given)
+            stored, nd = [float(x) for x in ta.data.ravel()], float(ta.nodata)
+        fdt = np.dtype(fd_dtype).name
+        tat = "default" if ta is None else np.dtype(field_dtype).name
+        holes = sum(1 for v in fd if v == fd_nodata)
         capz = n if maxcells == -1 else maxcells
         chains = [chain(fd, nrows, ncols, c) for c in range(n)]
         acyclic = not any(cy for _, _, cy in chains)
@@ -105,53 +134,85 @@ def run(ctx):
         for c in range(n):
             for d in chains[c][0]:
                 nup[d] += 1
-        terms.append("{| a_nrows := %s; a_ncols := %s; a_max := %s; a_nodata := %s; a_fd := %s; "
-                     "a_field := %s; a_expect := %s |}" % (
-                         cm.coq_z(nrows), cm.coq_z(ncols), cm.coq_z(capz), cm.coq_float(nodata),
-                         cm.coq_zlist(fd), cm.coq_flist(field), cm.coq_option(res, cm.coq_flist)))
-        replays.append(replay)
-        idx = len(terms) - 1
-        ctx.count(((min(nrows, 3), min(ncols, 3)), kind, acyclic, maxcells == -1, min(max(nup or [0]), 4),
-                   res is None))
-        if idx % 500 == 0:
-            ctx.sample({k: replay[k] for k in ("nrows", "ncols", "flowdir", "field", "impl")})
-        # ---- oracle (independent of the model) ----
-        if not np.array_equal(g.data, fd_before) or (ta is not None and not np.array_equal(
-                ta.data, ta_before, equal_nan=True)):
-            fail(idx, "C11/accumulate/input-grid-altered", "accumulate changed the cell values of an input grid")
-        if res is None:
-            if maxcells == -1 or maxcells >= 1:
-                fail(idx, "C11/accumulate/spurious-error", "accumulate raised on a valid grid")
-            return
-        if not complete:
-            return      # cycles or a reduced cap: only termination without error is required
-        F = [Fraction(x) for x in field]
-        total = list(F)
-        for c in range(n):
-            for d in chains[c][0]:
-                total[d] += F[c]
-        for c in range(n):
-            dn = o_down(fd, nrows, ncols, c)
-            if dn < 0:
-                ok = (np.isnan(res[c]) and np.isnan(nodata)) or res[c] == nodata
-                if not ok:
-                    fail(idx, "C11/accumulate/terminal-cell-not-nodata",
-                         f"cell {c} drains nowhere but carries {res[c]} instead of the no-data value {nodata}")
+
+        def oracle(idx, res):
+            # ---- oracle (independent of the model) ----
+            fd_after = [int(x) for x in np.asarray(g.data).ravel()]
+            if np.shape(g.data) != (nrows, ncols) or fd_after != fd:
+                k = next((i for i in range(min(n, len(fd_after))) if fd_after[i] != fd[i]), None)
+                fail(idx, "C11/accumulate/input-grid-altered",
+                     f"accumulate changed the cell values of the flow-direction grid ({fdt}, no-data value {fd_nodata})"
+                     + (f": cell {k} held {fd[k]}, holds {fd_after[k]} after the call" if k is not None else ""))
+            if ta is not None:
+                ta_after = np.asarray(ta.data, dtype=np.float64)
+                if ta_after.shape != (nrows, ncols) or not np.array_equal(
+                        ta_after.ravel(), np.array(stored, dtype=np.float64), equal_nan=True):
+                    fail(idx, "C11/accumulate/input-grid-altered",
+                         f"accumulate changed the cell values of the accumulated field grid ({tat})")
+            if res is None:
+                if maxcells == -1 or maxcells >= 1:
+                    fail(idx, "C11/accumulate/spurious-error", "accumulate raised on a valid grid")
+                return
+            if len(res) != n:
+                fail(idx, "C11/accumulate/not-upstream-sum", f"result has {len(res)} cells, grid has {n}")
+                return
+            if not complete:
+                return      # cycles or a reduced cap: only termination without error is required
+            F = [Fraction(x) for x in stored]
+            total = list(F)
+            for c in range(n):
+                for d in chains[c][0]:
+                    total[d] += F[c]
+            for c in range(n):
+                dn = o_down(fd, nrows, ncols, c)
+                if dn < 0:
+                    ok = (np.isnan(res[c]) and np.isnan(nd)) or res[c] == nd
+                    if not ok:
+                        fail(idx, "C11/accumulate/terminal-cell-not-nodata",
+                             f"cell {c} drains nowhere but carries {res[c]} instead of the no-data value {nd}")
+                        return
+                    continue
+                want = total[c]
+                scale = sum(abs(F[u]) for u in range(n) if c in chains[u][0]) + abs(F[c])
+                if np.isnan(res[c]) or np.isinf(res[c]) or \
+                        abs(Fraction(res[c]) - want) > Fraction(1, 10 ** 9) * max(scale, 1):
+                    fail(idx, "C11/accumulate/not-upstream-sum",
+                         f"{nrows}x{ncols} grid: accumulation of cell {c} = {res[c]}, sum over the cell and everything "
+                         f"upstream = {float(want)}")
                     return
-                continue
-            want = total[c]
-            scale = sum(abs(F[u]) for u in range(n) if c in chains[u][0]) + abs(F[c])
-            if abs(Fraction(res[c]) - want) > Fraction(1, 10 ** 9) * max(scale, 1):
-                fail(idx, "C11/accumulate/not-upstream-sum",
-                     f"{nrows}x{ncols} grid: accumulation of cell {c} = {res[c]}, sum over the cell and everything "
-                     f"upstream = {float(want)}")
-                return
-            ups = [u for u in range(n) if o_down(fd, nrows, ncols, u) == c]
-            loc = F[c] + sum(Fraction(res[u]) for u in ups)
-            if abs(Fraction(res[c]) - loc) > Fraction(1, 10 ** 9) * max(scale, 1):
-                fail(idx, "C11/accumulate/not-local-sum",
-                     f"accumulation of cell {c} = {res[c]} differs from own value + direct upstream neighbours = {float(loc)}")
-                return
+                ups = [u for u in range(n) if o_down(fd, nrows, ncols, u) == c]
+                if any(np.isnan(res[u]) or np.isinf(res[u]) for u in ups):
+                    continue    # an upstream neighbour failed the previous clause already (reported at that cell)
+                loc = F[c] + sum(Fraction(res[u]) for u in ups)
+                if abs(Fraction(res[c]) - loc) > Fraction(1, 10 ** 9) * max(scale, 1):
+                    fail(idx, "C11/accumulate/not-local-sum",
+                         f"accumulation of cell {c} = {res[c]} differs from own value + direct upstream neighbours = {float(loc)}")
+                    return
+
+        for call in range(1, calls + 1):
+            replay = {"nrows": nrows, "ncols": ncols, "flowdir": list(fd), "flowdir_dtype": fdt,
+                      "flowdir_nodata": int(fd_nodata), "field": list(stored), "field_dtype": tat,
+                      "max_accumulated_cells": maxcells, "nodata": repr(nd),
+                      "call": f"{call} of {calls} on the same grid objects"}
+            cm.mark(replay)
+            try:
+                with quiet_stdout():
+                    acc = hygrid.accumulate(g, ta, nprint=10 ** 9, max_accumulated_cells=maxcells)
+                res = [float(x) for x in acc.data.ravel()]
+            except ValueError:
+                res = None
+            replay["impl"] = res
+            terms.append("{| a_nrows := %s; a_ncols := %s; a_max := %s; a_nodata := %s; a_fd := %s; "
+                         "a_field := %s; a_expect := %s |}" % (
+                             cm.coq_z(nrows), cm.coq_z(ncols), cm.coq_z(capz), cm.coq_float(nd),
+                             cm.coq_zlist(fd), cm.coq_flist(stored), cm.coq_option(res, cm.coq_flist)))
+            replays.append(replay)
+            idx = len(terms) - 1
+            ctx.count(((min(nrows, 3), min(ncols, 3)), kind, acyclic, maxcells == -1, min(max(nup or [0]), 4),
+                       res is None, fdt, fd_nodata == 0, min(holes, 2), tat, call))
+            if idx % 500 == 0:
+                ctx.sample({k: replay[k] for k in ("nrows", "ncols", "flowdir", "flowdir_dtype", "field", "impl")})
+            oracle(idx, res)
 
     # ---- corpus: the replay of the fixed defect
     do(1, 3, [1, 1, 1], "dyadic", [1.0, 10.0, 100.0])
@@ -176,6 +237,58 @@ def run(ctx):
         maxcells = -1 if rng.random() < 0.8 else rng.choice([1, 2, 3, max(1, n // 2), n + 3])
         nodata = rng.choice([float("nan"), -9999.0, 0.0])
         do(nrows, ncols, fd, kind, field_of(kind, n), maxcells, nodata)
+    # ---- stored representations, exhaustive tiny grids: the invalid cell value is the grid's no-data value, every
+    #      storage type of the directions x each of its no-data values x default field / each field storage type
+    #      (rotating), the same grid objects taken through two calls
+    combos = [(dt, ndv, fs) for (dt, ndvs) in FD_STORAGE for ndv in ndvs for fs in [None] + FIELD_STORAGE]
+    rng.shuffle(combos)
+    k = 0
+    for (nrows, ncols) in [(1, 1), (1, 2), (2, 1), (1, 3), (3, 1)]:
+        n = nrows * ncols
+        for fd in itertools.product(VALUES, repeat=n):
+            if 3 not in fd:
+                continue
+            dt, ndv, fs = combos[k % len(combos)]
+            k += 1
+            fdh = [ndv if v == 3 else v for v in fd]
+            if fs is None:
+                do(nrows, ncols, fdh, "unit", [1.0] * n, nodata=float(ndv), fd_dtype=dt, fd_nodata=ndv,
+                   default_field=True, calls=2)
+            else:
+                ft, fnds = fs
+                do(nrows, ncols, fdh, "dyadic", [2.0 ** (j + 1) + 1 for j in range(n)], nodata=fnds[k % len(fnds)],
+                   fd_dtype=dt, fd_nodata=ndv, field_dtype=ft, default_field=False, calls=2)
+    # ---- stored representations, random grids: storage type and no-data value of the directions, cells holding
+    #      that no-data value, default field or a field of each storage type, one or two calls on the same objects
+    for it in range(ctx.scale(450, 4000)):
+        nrows = rng.choice([1, 2, 3, rng.randint(1, S), rng.randint(2, S)])
+        ncols = rng.choice([1, 2, 3, rng.randint(1, S), rng.randint(2, S)])
+        n = nrows * ncols
+        dt, ndvs = rng.choice(FD_STORAGE)
+        ndv = rng.choice(ndvs)
+        if rng.random() < 0.85:
+            fd = rand_acyclic(rng, nrows, ncols)
+        else:
+            fd = [rng.choice(VALUES if rng.random() < 0.3 else CODES) for _ in range(n)]
+        if rng.random() < 0.85:
+            ph = rng.choice([0.05, 0.2, 0.5])
+            fd = [ndv if rng.random() < ph else v for v in fd]
+            fd[rng.randrange(n)] = ndv
+        maxcells = -1 if rng.random() < 0.9 else rng.choice([1, 2, max(1, n // 2), n + 3])
+        calls = rng.choice([1, 2])
+        if rng.random() < 0.3:
+            do(nrows, ncols, fd, "unit", [1.0] * n, maxcells, float(ndv), fd_dtype=dt, fd_nodata=ndv,
+               default_field=True, calls=calls)
+            continue
+        ft, fnds = rng.choice(FIELD_STORAGE)
+        if np.issubdtype(ft, np.integer):
+            kind = rng.choice(["unit", "count", "signed"])
+            field = [float(rng.randint(0, 1000)) for _ in range(n)] if kind == "count" else field_of(kind, n)
+        else:
+            kind = rng.choice(["unit", "uniform", "dyadic", "signed", "random"])
+            field = field_of(kind, n)
+        do(nrows, ncols, fd, kind, field, maxcells, rng.choice(fnds), fd_dtype=dt, fd_nodata=ndv, field_dtype=ft,
+           default_field=False, calls=calls)
 
     bad, nshards, failed = cm.run_case_files(PID, HEADER, "acase", "a_ok", terms, shard=600, max_bytes=300000)
     ctx.notes["correspondence_cases"] = len(terms)
